@@ -168,6 +168,8 @@ def extra_handles(ctx):
                 args.append("{T}")
             elif g["kind"] == "type" and any(w.startswith(g["name"] + ": ") and w.endswith("mem::MemBuilder") for w in wh):
                 args.append("{M}")
+            elif g["kind"] == "type" and "{E}" not in args and any(w == g["name"] + ": 'static" for w in wh):
+                args.append("{E}")          # the element type of a typed handle
             else:
                 ok = False
         if not ok or not any(x["path"] == p and x.get("exported") for x in fx.api):
@@ -183,11 +185,14 @@ def extra_handles(ctx):
             cls = "shared" if (is_shared and cls in (None, "shared")) else "excl"
         if cls is None:
             continue
-        name = p + (":Cloneable" if any("Cloneable" in w for w in wh) else "")
+        if "{E}" in args and "{T}" in args:
+            continue
+        name = p + (":Cloneable" if any("Cloneable" in w for w in wh) else "") + (":typed" if "{E}" in args else "")
         # the type may live in a private module and be re-exported from a parent: every path obtained by dropping inner module segments is a candidate,
         # the probe crate tells which of them names the type (see run())
         segs = p.split("::")
-        cands = ["::".join(segs[:i] + segs[-1:]) for i in range(len(segs) - 1, -1, -1)]
+        cands = [x["public"] for x in getattr(fx, "public_paths", []) if x.get("def") == p]
+        cands += [c_ for c_ in ["::".join(segs[:i] + segs[-1:]) for i in range(len(segs) - 1, -1, -1)] if c_ not in cands]
         for ci, cp in enumerate(cands):
             row = ("any_vec::%s<%s>" % (cp, ", ".join(args)), name, p, ci)
             (sh if cls == "shared" else ex).append(row)
@@ -229,7 +234,7 @@ def build_p15(ctx):
             # the vector itself: exactly
             probe(vec, "Send", vsend, not vsend, "P15:AnyVec:Send:%s/%s" % (t, b), "AnyVec is Send exactly when the constraint set includes Send and the backend is Send")
             probe(vec, "Sync", vsync, not vsync, "P15:AnyVec:Sync:%s/%s" % (t, b), "AnyVec is Sync exactly when the constraint set includes Sync and the backend is Sync")
-            for row in SHARED_HANDLES + xs:
+            for row in SHARED_HANDLES + [r_ for r_ in xs if not r_[1].endswith(":typed")]:
                 tmpl, name = row[0], row[1]
                 grp = (row[2], row[3]) if len(row) > 2 else None
                 if ("LazyClone" in name or name.endswith(":Cloneable")) and not tc:
@@ -240,7 +245,7 @@ def build_p15(ctx):
                 probe(h, "Send", False, not vsync, "P15:%s:Send:%s/%s" % (name, t, b), "a shared handle may be Send only if &AnyVec is Send (AnyVec: Sync)")
                 probe(h, "Sync", False, not vsync, "P15:%s:Sync:%s/%s" % (name, t, b), "a shared handle may be Sync only if &AnyVec is Sync (AnyVec: Sync)")
             cur_group[0] = None
-            for row in EXCL_HANDLES + xe:
+            for row in EXCL_HANDLES + [r_ for r_ in xe if not r_[1].endswith(":typed")]:
                 tmpl, name = row[0], row[1]
                 grp = (row[2], row[3]) if len(row) > 2 else None
                 if ("LazyClone" in name or name.endswith(":Cloneable")) and not tc:
@@ -263,14 +268,19 @@ def build_p15(ctx):
         for (b, bs, by) in BACKENDS:
             shared_ok = bool(ey and by)
             excl_send = bool(es and bs)
-            for (tmpl, name, kind) in (("AnyVecRef<'static, {E}, {M}>", "AnyVecRef", "shared"), ("AnyVecMut<'static, {E}, {M}>", "AnyVecMut", "excl"),
-                                       ("AnyVecTyped<'static, {E}, {M}>", "AnyVecTyped", "excl")):
+            typed_rows = [("AnyVecRef<'static, {E}, {M}>", "AnyVecRef", "shared", None), ("AnyVecMut<'static, {E}, {M}>", "AnyVecMut", "excl", None),
+                          ("AnyVecTyped<'static, {E}, {M}>", "AnyVecTyped", "excl", None)]
+            typed_rows += [(r_[0], r_[1], "shared", (r_[2], r_[3])) for r_ in xs if r_[1].endswith(":typed")]
+            typed_rows += [(r_[0], r_[1], "excl", (r_[2], r_[3])) for r_ in xe if r_[1].endswith(":typed")]
+            for (tmpl, name, kind, grp_) in typed_rows:
+                cur_group[0] = grp_
                 h = tmpl.format(E=e, M=b)
                 if kind == "shared":
                     probe(h, "Send", False, not shared_ok, "P15:%s:Send:%s/%s" % (name, e, b), "a shared typed view may be Send only if T: Sync and the backend is Sync")
                 else:
                     probe(h, "Send", False, not excl_send, "P15:%s:Send:%s/%s" % (name, e, b), "an exclusive typed view may be Send only if T: Send and the backend is Send")
                 probe(h, "Sync", False, not shared_ok, "P15:%s:Sync:%s/%s" % (name, e, b), "a typed view may be Sync only if T: Sync and the backend is Sync")
+    cur_group[0] = None
     # element class tables are themselves probed
     for (e, es, ey, ec) in ELEMS:
         probe(e, "Send", bool(es), not es, "P15:class-table:Send:%s" % e, "element class table")
